@@ -521,6 +521,10 @@ def out6(units, R):
             W, Rd = cd0.roles()
             if not W or not Rd:
                 continue
+            if not any(n_.kind == 'nop' and n_.name == 'loop-head' for n_ in fn.cfg().nodes):
+                # no loop: nothing is transformed progressively here; a single store at a place found in the string (the split at
+                # the last '/') cannot overtake a reader.  What the callees do with the cursors is judged in the callees
+                continue
             # in place = a written-through cursor and a read-through cursor are pointed at the same string
             assume = dict(summ.get(fn.name, {}).get('assume', {})) if fn.name in summ else {}
             cd = CursorDiffs(unit, fn, summ, assume=assume)
